@@ -170,6 +170,70 @@ def run_import(ctx, sch, html, part, features):
     return doc
 
 
+def run_parse_slice(ctx, sch, html, features):
+    """DOMParser.parse_slice on the same fragments: must return; every node of the slice that is
+    not on an open side must be valid; open depths must not exceed the content's spine."""
+    import lxml.html
+    from prosemirror.model import DOMParser
+    from prosemirror.model.from_dom import ParseOptions
+
+    det = {"schema": sch.id, "html": html[:1500], "part": "parse_slice"}
+    rs, leaf = sch.ref, sch.leaf
+    for ws in (True, None):
+        try:
+            frag = lxml.html.fragment_fromstring(html, create_parent="document-fragment")
+            parser = DOMParser.from_schema(sch.schema)
+            # parse_slice does not convert text itself; give it the tree parse() has prepared
+            sl = watch().run(5000 * (len(html) + 10), lambda: parser.parse_slice(frag, ParseOptions(preserve_whitespace=ws)))
+        except StepBudgetExceeded as e:
+            ctx.violation("import-nontermination", "parse_slice exceeded the step budget (%s)" % e, det, {"part": "parse_slice"})
+            return
+        except BaseException as e:
+            import traceback
+            tb = traceback.extract_tb(e.__traceback__)
+            where = next((f.name for f in reversed(tb) if "prosemirror" in f.filename), "?")
+            ctx.violation("import-raised", "parse_slice raised %s: %s (in %s)" % (type(e).__name__, str(e)[:200], where), det,
+                          {"part": "parse_slice", "exc": type(e).__name__, "where": where, "comment": "comment" in features})
+            return
+        ctx.count("parse_slices")
+        content = flat.pt_frag(sl.content)
+
+        def walk(children, os_, oe):
+            last = len(children) - 1
+            for i, c in enumerate(children):
+                if c[0] == "t" or c[1] in leaf:
+                    continue
+                lo, ro = os_ > 0 and i == 0, oe > 0 and i == last
+                if lo or ro:
+                    r = walk(c[4], os_ - 1 if lo else 0, oe - 1 if ro else 0)
+                else:
+                    r = rs.why_invalid(c, "slice")
+                if r:
+                    return r
+            return None
+
+        def spine(children, side):
+            k = 0
+            cur = children
+            while cur:
+                c = cur[0] if side == 0 else cur[-1]
+                if c[0] != "n" or c[1] in leaf:
+                    break
+                k += 1
+                cur = c[4]
+            return k
+
+        why = walk(content, sl.open_start, sl.open_end)
+        if why is not None:
+            ctx.violation("import-invalid-document", "parse_slice returned a slice with an invalid closed node (%s): %s" % (why, str(sl)[:300]), det,
+                          {"part": "parse_slice", "why": why.split(":")[-1].strip()[:50]})
+            return
+        if sl.open_start > spine(content, 0) or sl.open_end > spine(content, 1):
+            ctx.violation("parse-slice-open", "parse_slice returned open depths (%d,%d) deeper than its content %s" % (sl.open_start, sl.open_end, str(sl)[:200]), det, {"part": "parse_slice"})
+            return
+    ctx.cover(["P", sch.id, min(sl.open_start, 3), min(sl.open_end, 3)], nontrivial=True)
+
+
 # ------------------------------------------------------------------ context probe
 
 _PROBE = {}
@@ -583,6 +647,8 @@ def case(ctx, rnd, i):
             doc = run_import(ctx, sch, html, "import", feats)
             if doc is not None:
                 ctx.cover(["I", sch.id, sorted(feats)[:3], doc.child_count > 1], nontrivial=True)
+                if rnd.random() < 0.4:
+                    run_parse_slice(ctx, sch, html, feats)
     elif k == 3:
         for _ in range(4):
             check_context(ctx, rnd)
